@@ -17,12 +17,16 @@ import (
 	"golang.org/x/tools/go/ssa"
 )
 
-const (
-	repoDir    = "/repo"
-	modulePath = "github.com/influxdata/influxdb/v2"
-)
+const modulePath = "github.com/influxdata/influxdb/v2"
+
+// repoDir is /repo for every registered command; VERIF_REPO points the developer's self-test at a
+// scratch copy so that seeded patches are never applied to /repo while other checks run.
+var repoDir = "/repo"
 
 var verifDir = "/verif"
+
+// cacheTag separates the native-replay caches of concurrently running invocations.
+var cacheTag = ""
 
 func pkgDir(importPath string) string {
 	if importPath == modulePath {
@@ -151,6 +155,10 @@ func main() {
 	}
 	if d := os.Getenv("VERIF_DIR"); d != "" {
 		verifDir = d
+	}
+	if d := os.Getenv("VERIF_REPO"); d != "" {
+		repoDir = d
+		cacheTag = "_alt"
 	}
 	switch os.Args[1] {
 	case "run":
